@@ -820,18 +820,16 @@ struct NullIf;
 
 impl Callable for NullIf {
     fn call(args: Vec<DataType>) -> EvaluationResult<DataType> {
-        if args.len() != 2 || !matches!(args[1], DataType::Bool(_)) {
+        if args.len() != 2 {
             return Err(EvaluationError::InvalidArguments(ScalarFunction::NullIf));
         };
 
-        let condition = args[1]
-            .as_bool()
-            .ok_or(EvaluationError::TypeError(
-                TypeSystemError::UnexpectedDataType(args[1].kind()),
-            ))?
-            .value();
-
-        if condition {
+        // NULLIF(a, b) is NULL if a = b and a otherwise (a comparison with NULL is never true)
+        if args[0].is_null() || args[1].is_null() {
+            return Ok(args[0].clone());
+        }
+        ExpressionEvaluator::check_comparable(&args[0], &args[1])?;
+        if args[0] == args[1] {
             return Ok(DataType::Null);
         }
         Ok(args[0].clone())
